@@ -18,6 +18,11 @@ type Clause struct {
 	Props []string // nil = all of the owner's
 }
 
+type atCall struct {
+	Callee string
+	Clause *Clause
+}
+
 type LoopSpec struct {
 	Invs []*Clause
 	Decr *Clause
@@ -38,6 +43,8 @@ type Contract struct {
 	ModeBV    bool
 	NoSafety  bool
 	Holds     []string // locks the caller must hold ("x.mu")
+	Orders    [][2]string
+	AtCalls   []atCall
 	NoWrap    bool // unsigned arithmetic assumed not to overflow (listed)
 	Exclusive bool // the receiver is not shared during the call: lock discipline waived (listed)
 	Inline    bool // call sites inline the body instead of using the contract
@@ -71,7 +78,7 @@ type TypeSpec struct {
 
 var clauseKeywords = map[string]bool{"property": true, "requires": true, "ensures": true, "modifies": true,
 	"panics": true, "loop": true, "invariant": true, "decreases": true, "trusted": true, "pure": true, "mode": true,
-	"nosafety": true, "assumes": true, "ghostfield": true, "holds": true, "nowrap": true, "exclusive": true, "inline": true, "forall": true, "guards": true, "lockinv": true, "ghost": true, "unroll": true}
+	"nosafety": true, "order": true, "atcall": true, "assumes": true, "ghostfield": true, "holds": true, "nowrap": true, "exclusive": true, "inline": true, "forall": true, "guards": true, "lockinv": true, "ghost": true, "unroll": true}
 
 // rewriteImplies turns `A ==> B` (lowest precedence, right associative, split at
 // bracket depth 0) into `(!(A) || (B))`, recursively inside brackets too.
@@ -427,6 +434,25 @@ func (e *Engine) parseContractFile(p *packages.Package, f *ast.File, fname strin
 		case "nosafety":
 			if cur != nil {
 				cur.NoSafety = true
+			}
+		case "order":
+			// order X after Y : on every path a call of X is preceded by a call of Y
+			if cur != nil {
+				fs := strings.Fields(rest)
+				if len(fs) == 3 && fs[1] == "after" {
+					cur.Orders = append(cur.Orders, [2]string{fs[0], fs[2]})
+				} else {
+					fatal("contract %s: order X after Y", where)
+				}
+			}
+		case "atcall":
+			// atcall Callee: expr over arg0.., self and the caller's variables at the call
+			if cur != nil {
+				name, ex, ok := strings.Cut(rest, ":")
+				if !ok {
+					fatal("contract %s: atcall Callee: expr", where)
+				}
+				cur.AtCalls = append(cur.AtCalls, atCall{Callee: strings.TrimSpace(name), Clause: e.parseClause(ex, where)})
 			}
 		case "holds":
 			if cur != nil {
